@@ -178,7 +178,7 @@ def commit (ck : CK F) (nv : Nat) (evals : List F) : Except Err (Commitment F) :
 def foldStep (z : F) : List F → List F × List F
   | a :: b :: rest =>
     let (q, r') := foldStep z rest
-    ((a - b) :: q, (a * (1 - z) + b * z) :: r')
+    ((b - a) :: q, (a * (1 - z) + b * z) :: r')
   | _ => ([], [])
 
 /-- `(0..(1 << k)).map(|x| q[k][x >> 1])`: every quotient evaluation twice -/
